@@ -570,6 +570,15 @@ func (c *Ctx) ruleTaskQueueing(rr *RuleRep, rq *RuleRep, onlyReq ...string) {
 
 // ---- R-C01-4 / R-C18-1,3 -----------------------------------------------------------------------------
 
+// ruleFailedKeptFor runs R-C01-4 for the named request methods only.
+func (c *Ctx) ruleFailedKeptFor(rr *RuleRep, reqs ...string) {
+	onlyFailedKept = reqs
+	defer func() { onlyFailedKept = nil }()
+	c.ruleFailedKept(rr, nil)
+}
+
+var onlyFailedKept []string
+
 func (c *Ctx) ruleFailedKept(rr *RuleRep, rr18 *RuleRep) {
 	a := c.retryAnchors()
 	rep := rr
@@ -580,6 +589,17 @@ func (c *Ctx) ruleFailedKept(rr *RuleRep, rr18 *RuleRep) {
 		return
 	}
 	for _, api := range retryAPIs {
+		if len(onlyFailedKept) > 0 {
+			keep := false
+			for _, o := range onlyFailedKept {
+				if o == api.Req {
+					keep = true
+				}
+			}
+			if !keep {
+				continue
+			}
+		}
 		f := c.Method("RetryClient", api.Req)
 		key := "(*RetryClient)." + api.Req
 		if f == nil {
@@ -660,14 +680,25 @@ func (c *Ctx) ruleFailedKept(rr *RuleRep, rr18 *RuleRep) {
 				return false, false
 			}
 			bs, elems, ok := c.appendChain(st.Val)
-			if !ok || len(elems) != 1 || elems[0].Single == nil {
+			if !ok {
 				return false, false
 			}
-			if _, isRQ := isLoadOfField(bs, a.RetryQueue); !isRQ {
-				return false, false
+			// the old queue must survive (as base or as a spread operand) and the handle of this error must be among the elements
+			_, keepsOld := isLoadOfField(bs, a.RetryQueue)
+			found, wrapped := false, false
+			for _, e := range elems {
+				if e.Spread != nil {
+					if _, isRQ := isLoadOfField(e.Spread, a.RetryQueue); isRQ {
+						keepsOld = true
+					}
+				}
+				if e.Single != nil {
+					if w, src, _ := c.retryHandleOf(a, e.Single); src == ssa.Value(call) {
+						found, wrapped = true, w
+					}
+				}
 			}
-			wrapped, src, _ := c.retryHandleOf(a, elems[0].Single)
-			return src == ssa.Value(call), wrapped
+			return found && keepsOld, wrapped
 		}
 		if rr != nil {
 			pred := func(in ssa.Instruction) bool { k, _ := isKeep(in); return k }
